@@ -10,7 +10,10 @@ use serde_json::json;
 #[derive(Clone, Copy, Debug, PartialEq, Eq, Hash)]
 pub enum Sym {
     L,
+    /// cel in the lowest layer that has no cel in the current frame
     C,
+    /// cel in the highest layer that has no cel in the current frame (cel chunks out of layer order)
+    Ch,
     S,
     T(u8),
     P4,
@@ -21,7 +24,7 @@ pub enum Sym {
     F,
 }
 
-const ALPHABET: [Sym; 13] = [Sym::L, Sym::C, Sym::S, Sym::T(0), Sym::T(1), Sym::T(2), Sym::T(3), Sym::P4, Sym::P11, Sym::N, Sym::I, Sym::U, Sym::F];
+const ALPHABET: [Sym; 14] = [Sym::L, Sym::C, Sym::Ch, Sym::S, Sym::T(0), Sym::T(1), Sym::T(2), Sym::T(3), Sym::P4, Sym::P11, Sym::N, Sym::I, Sym::U, Sym::F];
 
 #[derive(Clone, Copy, Debug, PartialEq)]
 enum Ctx {
@@ -60,13 +63,18 @@ impl State {
                 self.layers.push(None);
                 self.ctx = Ctx::Layer(self.layers.len() - 1);
             }
-            Sym::C => {
-                // the cel goes to the first layer without a cel in this frame
+            Sym::C | Sym::Ch => {
+                // the cel goes to the lowest (C) / highest (Ch) layer without a cel in this frame
                 let row = &mut self.cels[self.frame];
                 while row.len() < self.layers.len() {
                     row.push(None);
                 }
-                match row.iter().position(|c| c.is_none()) {
+                let free = if sym == Sym::C { row.iter().position(|c| c.is_none()) } else { row.iter().rposition(|c| c.is_none()) };
+                // Ch is only a distinct symbol when it differs from C
+                if sym == Sym::Ch && free == row.iter().position(|c| c.is_none()) {
+                    return false;
+                }
+                match free {
                     Some(l) => {
                         row[l] = Some(None);
                         self.ctx = Ctx::Cel(self.frame, l);
@@ -156,7 +164,7 @@ pub fn build_file(word: &[Sym], seed: u64) -> Option<(Vec<u8>, State)> {
         let cur = frames.len() - 1;
         match sym {
             Sym::L => frames[cur].push(fin(layer_chunk(&Layer { flags: 3, kind: LayerKind::Image, level: 0, blend: 0, opacity: 255, name: format!("l{}", pos), user_data: None }, &mut None), &mut rng)),
-            Sym::C => {
+            Sym::C | Sym::Ch => {
                 let l = match st.ctx {
                     Ctx::Cel(_, l) => l,
                     _ => unreachable!(),
@@ -283,7 +291,7 @@ pub fn check_word(word: &[Sym], seed: u64) -> Option<CheckResult> {
         for s in word {
             match s {
                 Sym::L => kinds.insert(0),
-                Sym::C => kinds.insert(1),
+                Sym::C | Sym::Ch => kinds.insert(1),
                 Sym::S => kinds.insert(2),
                 Sym::T(_) => kinds.insert(3),
                 Sym::P4 | Sym::P11 => kinds.insert(4),
@@ -302,6 +310,7 @@ pub fn check_word(word: &[Sym], seed: u64) -> Option<CheckResult> {
             h = h.wrapping_mul(131).wrapping_add(match s {
                 Sym::L => 1,
                 Sym::C => 2,
+                Sym::Ch => 14,
                 Sym::S => 3,
                 Sym::T(n) => 4 + *n as u64,
                 Sym::P4 => 8,
@@ -360,7 +369,8 @@ fn random_word(tape: &[u32]) -> (Vec<Sym>, u64) {
         // pick a symbol; skip it if it would make the word invalid (construction, not rejection)
         let s = match t.below(16) {
             0 | 1 => Sym::L,
-            2 | 3 | 4 => Sym::C,
+            2 | 3 => Sym::C,
+            4 => Sym::Ch,
             5 => Sym::S,
             6 => Sym::T(t.below(4) as u8),
             7 => Sym::P4,
@@ -393,6 +403,7 @@ fn parse_word(s: &str) -> Vec<Sym> {
         v.push(match tok {
             "L" => Sym::L,
             "C" => Sym::C,
+            "Ch" => Sym::Ch,
             "S" => Sym::S,
             "P4" => Sym::P4,
             "P11" => Sym::P11,
@@ -409,7 +420,7 @@ fn parse_word(s: &str) -> Vec<Sym> {
 
 pub fn run(run: &mut Run) {
     let maxlen = if run.thorough() { 7 } else { 6 };
-    run.rule = format!("exhaustive: every word of length 1..={} over {{layer, cel, slice, tags(0..3), legacy palette 0x0004, legacy palette 0x0011, new palette, ignorable, user-data, frame-break}} satisfying the statement's side conditions (record has an attachable predecessor, no entity gets two records, <= n records after tags(n), one tags chunk in frame 0, layers in frame 0, a cel's layer exists, one cel per frame x layer); record flavour (text/colour/both/neither) and ignorable kind drawn from the seed. Oracle: a context state machine written from the statement predicts the record of every layer, cel, slice, tag and the sprite (None for entities without one). Plus random words of length 7-60 from proptest tapes. non-trivial: >= 1 record and (>= 2 entity kinds or a non-entity chunk directly before a record); distinct by (word, seed)", maxlen);
+    run.rule = format!("exhaustive: every word of length 1..={} over {{layer, cel (lowest free layer), cel (highest free layer: cel chunks out of layer order), slice, tags(0..3), legacy palette 0x0004, legacy palette 0x0011, new palette, ignorable, user-data, frame-break}} satisfying the statement's side conditions (record has an attachable predecessor, no entity gets two records, <= n records after tags(n), one tags chunk in frame 0, layers in frame 0, a cel's layer exists, one cel per frame x layer); record flavour (text/colour/both/neither) and ignorable kind drawn from the seed. Oracle: a context state machine written from the statement predicts the record of every layer, cel, slice, tag and the sprite (None for entities without one). Plus random words of length 7-60 from proptest tapes. non-trivial: >= 1 record and (>= 2 entity kinds or a non-entity chunk directly before a record); distinct by (word, seed)", maxlen);
     run.exhaustive = Some(true);
     let words = enumerate(maxlen);
     let seed = run.seed;
